@@ -193,6 +193,18 @@ def hook_consumers_rule(ctx, R3, nb, allv):
     """Certificate.hooks / FileManager.hooks in MainEventLoop::new: one get_hooks() result, only filtered, by the predicate `types
     intersect the consumer's own family` (shared with C05: a challenge hook that also has a file type must still reach the certificate)"""
     prog = ctx.prog
+    # evaluation first: MainEventLoop::new interpreted on a configuration with one account and one certificate whose get_hooks()
+    # answers a list of sample hooks (one per hook type, two of mixed families): each consumer must receive exactly the hooks having
+    # at least one type of its family, in order
+    dist = hook_distribution(prog)
+    if dist is not None:
+        names, types = dist["samples"]
+        for who, fam in (("account FileManager", FILE_TYPES), ("certificate FileManager", FILE_TYPES), ("Certificate", allv - FILE_TYPES)):
+            want = [n for n in names if set(types[n]) & fam]
+            got = dist.get(who)
+            ctx.require(R3, got == want, "%s:%s" % (nb.file, nb.line), "%s keeps the hooks whose types intersect its own family, in order (`%s`): evaluated %s, expected %s" % (
+                who, "file_hooks" if fam == FILE_TYPES else "cert_hooks", got, want), [MEL, "hooks-family", who.split()[-1] if who != "Certificate" else "Certificate"])
+        return
     # consumers
     for adt, fld, src_call, fam_local in (("acmed::certificate::Certificate", "hooks", "acmed::config::Certificate::get_hooks", "cert_hooks"),
                                           ("acmed::storage::FileManager", "hooks", None, "file_hooks")):
@@ -369,7 +381,13 @@ def env_rules(ctx):
         good, hit = unreachable_without(hb, [c.bb for c in hooks_call], removed_nodes=[c.bb for c in id_calls])
         ctx.require(R6, good, hooks_call[0].where() if hooks_call else "-", "the environment is complete before the hooks run", ["call_challenge_hooks", "env-before-hooks"])
     dg = prog.must_body("acmed::config::dispatch_global_env_vars")
-    for adt, what in (("acmed::config::Certificate", "certificates"), ("acmed::config::Account", "accounts")):
+    edt = env_dispatch_table(prog)
+    if edt is not None:
+        # evaluation first: the function is run on a concrete configuration; each owner's variables win over the global table's
+        for case, who, got, want in edt:
+            ctx.require(R6, got == want, "%s:%s" % (dg.file, dg.line), "%s, %s: env after dispatch = %s (global table overlaid with the owner's own variables: %s)" % (case, who, got, want),
+                        ["dispatch_global_env_vars", who.split()[0] + "s-precedence" if case == "global env set" else "no-global-" + who.split()[0]])
+    for adt, what in ([] if edt is not None else [("acmed::config::Certificate", "certificates"), ("acmed::config::Account", "accounts")]):
         writes = [(i, st) for i in dg.live_blocks() for st in dg.blocks[i]["stmts"] if st["s"] == "assign" and any(isinstance(e, dict) and e.get("adt") == adt and e.get("n") == "env" for e in st["lhs"]["p"])]
         ctx.require(R6, bool(writes), "%s:%s" % (dg.file, dg.line), "the global env table is merged into %s" % what, ["dispatch_global_env_vars", what])
         for i, st in writes:
@@ -571,3 +589,159 @@ def status_rule(ctx, R2):
         ctx.require(R2, bool(st_any) and good, "%s:%s" % (sb.file, sb.line), "call_single returns Ok only after the child's exit status was awaited", [SINGLE, "not-awaited"])
 
 
+
+
+_HD_CACHE = {}
+
+
+def hook_distribution(prog):
+    if id(prog) not in _HD_CACHE:
+        _HD_CACHE[id(prog)] = _hook_distribution(prog)
+    return _HD_CACHE[id(prog)]
+
+
+def _hook_distribution(prog):
+    """MainEventLoop::new EVALUATED (every fallible call succeeds) on a configuration with one account and one certificate; both
+    get_hooks() answer the same sample list. Returns {"samples": (names, {name: types}), "account FileManager": [names],
+    "certificate FileManager": [names], "Certificate": [names]} or None when the run does not produce the three lists."""
+    from ..absint import Interp, Val, async_state, ok, some, struct_val, success_model, variant, vbool, vstr
+    b = prog.async_body(MEL)
+    if b is None or prog.adt("acmed::hooks::Hook") is None:
+        return None
+    hts = prog.adt_variants(HT)
+    types = {"h_" + t: [t] for t in hts}
+    types["mix_file_challenge"] = [t for t in ("FilePostCreate", "ChallengeHttp01") if t in hts]
+    types["mix_post_file"] = [t for t in ("PostOperation", "FilePreEdit") if t in hts]
+    types["two_file"] = [t for t in ("FilePreCreate", "FilePostEdit") if t in hts]
+    names = list(types)
+
+    def hook(n):
+        return struct_val(prog, "acmed::hooks::Hook", {"name": vstr(n), "hook_type": Val("list", [variant(HT, t) for t in types[n]], "set")})
+    hooks = [hook(n) for n in names]
+    try:
+        acc = struct_val(prog, "acmed::config::Account", {"name": vstr("acc")})
+        crt = struct_val(prog, "acmed::config::Certificate", {"account": vstr("acc")})
+        cnf = struct_val(prog, "acmed::config::Config", {"account": Val("list", [acc]), "certificate": Val("list", [crt])})
+
+        def model(cs, args):
+            n = cs.name or ""
+            if n.endswith("config::from_file"):
+                return ok(cnf)
+            if n.endswith("::get_hooks"):
+                return ok(Val("list", list(hooks)))
+            if n.endswith("Certificate::get_id"):
+                return vstr("ID")
+            if n.endswith("::contains_key"):
+                return vbool(False)
+            if n.endswith("HashMap::get_mut") or n.endswith("HashMap::get"):
+                return some(Val("ref", Val("unknown", "entry")))
+            return None
+        st = async_state(prog, MEL, lambda name, ty, i: None)
+        it = Interp(b, success_model(b, model), 600000)
+        r = it.run({1: st})
+    except Exception:
+        return None
+    if r.kind != "return":
+        return None
+    FM, CERT = "acmed::storage::FileManager", "acmed::certificate::Certificate"
+    fmf, cf = prog.adt_fields(FM), prog.adt_fields(CERT)
+    hf = prog.adt_fields("acmed::hooks::Hook")
+
+    def hook_names(v):
+        v = v.deref()
+        if v.k != "list":
+            return None
+        out = []
+        for x in v.v:
+            xd = x.deref()
+            nv = xd.v[hf.index("name")].deref() if xd.k == "adt" and xd.extra and xd.extra[0] == "acmed::hooks::Hook" else None
+            if nv is None or nv.k != "str":
+                return None
+            out.append(nv.v)
+        return out
+    out = {"samples": (names, types)}
+
+    def visit(v, depth=0):
+        v = v.deref() if v is not None else None
+        if v is None or depth > 3:
+            return
+        if v.k == "adt" and v.extra and v.extra[0] == CERT and "hooks" in cf and "file_manager" in cf:
+            hn = hook_names(v.v[cf.index("hooks")])
+            fm = v.v[cf.index("file_manager")].deref()
+            if hn is not None:
+                out.setdefault("Certificate", hn)
+            if fm.k == "adt" and "hooks" in fmf:
+                fh = hook_names(fm.v[fmf.index("hooks")])
+                if fh is not None:
+                    out.setdefault("certificate FileManager", fh)
+        elif v.k == "adt" and v.extra and v.extra[0] == FM and "hooks" in fmf:
+            fh = hook_names(v.v[fmf.index("hooks")])
+            if fh is not None:
+                out.setdefault("_fm", []).append(fh)
+    for cs, a, res in r.calls:
+        n = cs.name or ""
+        if n.startswith("acmed::config::Account::to_generic") and len(a) > 1:
+            fm = a[1].deref()
+            if fm.k == "adt" and fm.extra and fm.extra[0] == FM and "hooks" in fmf:
+                fh = hook_names(fm.v[fmf.index("hooks")])
+                if fh is not None:
+                    out.setdefault("account FileManager", fh)
+        for x in a:
+            visit(x)
+    out.pop("_fm", None)
+    if not all(k in out for k in ("account FileManager", "certificate FileManager", "Certificate")):
+        return None
+    return out
+
+
+def env_dispatch_table(prog):
+    """config::dispatch_global_env_vars EVALUATED on a configuration with two certificates and an account, for a [global] env of two
+    variables / an empty one / no [global] table: [(case, owner, env afterwards, expected)] or None"""
+    from ..absint import NONE_V, Interp, Val, _FRAME_SEQ, _FRAMES, some, struct_val, vstr
+    b = prog.body("acmed::config::dispatch_global_env_vars")
+    G_, C_, A_, CF_ = "acmed::config::GlobalOptions", "acmed::config::Certificate", "acmed::config::Account", "acmed::config::Config"
+    if b is None or any(prog.adt(x) is None for x in (G_, C_, A_, CF_)) or any("env" not in prog.adt_fields(x) for x in (G_, C_, A_)):
+        return None
+
+    def mp(d):
+        return Val("list", [Val("tuple", [vstr(k), vstr(v)]) for k, v in d.items()], "map")
+    owners = [("certificate 1", C_, {"B": "c1", "C": "c1"}), ("certificate 2", C_, {}), ("account 1", A_, {"A": "a1"})]
+    rows = []
+    for case, genv in (("global env set", {"A": "g", "B": "g"}), ("global env empty", {}), ("no [global] table", None)):
+        gl = NONE_V if genv is None else some(struct_val(prog, G_, {"env": mp(genv)}))
+        cnf = struct_val(prog, CF_, {"global": gl, "certificate": Val("list", [struct_val(prog, C_, {"env": mp(e)}) for w, a, e in owners if a == C_]),
+                                     "account": Val("list", [struct_val(prog, A_, {"env": mp(e)}) for w, a, e in owners if a == A_])})
+        try:
+            it = Interp(b, None, 200000)
+            it.follow = lambda cs: (cs.name or "").startswith(("acmed::config::", "<acmed::config::"))
+            mut_p = [i for i in range(1, b.arg_count + 1) if b.local_ty(i).startswith("&mut ")]
+            if len(mut_p) != 1:
+                return None
+            r = it.run({9000: cnf, mut_p[0]: Val("ref", cnf, ("place", 9000, _FRAME_SEQ[0] + 1))})
+        except Exception:
+            return None
+        cur = (_FRAMES.get(getattr(it, "fid", None)) or {}).get(9000)
+        if r.kind != "return" or cur is None or cur.k != "adt":
+            return None
+        cf = prog.adt_fields(CF_)
+        lists = {C_: cur.v[cf.index("certificate")].deref(), A_: cur.v[cf.index("account")].deref()}
+        idx = {C_: 0, A_: 0}
+        for who, adt, own in owners:
+            lst = lists[adt]
+            if lst.k != "list" or idx[adt] >= len(lst.v):
+                return None
+            o = lst.v[idx[adt]].deref()
+            idx[adt] += 1
+            ev = o.v[prog.adt_fields(adt).index("env")].deref() if o.k == "adt" else None
+            if ev is None or ev.k != "list":
+                return None
+            got = {}
+            for t in ev.v:
+                td = t.deref()
+                if td.k != "tuple" or td.v[0].deref().k != "str" or td.v[1].deref().k != "str":
+                    return None
+                got[td.v[0].deref().v] = td.v[1].deref().v
+            want = dict(genv or {})
+            want.update(own)
+            rows.append((case, who, got, want))
+    return rows
